@@ -16,7 +16,7 @@ func init() {
 			c.Do("C12.b", "L6b deferred functions keep the first error", 3, func() {
 				clDeferKeepsError(c, []*ssa.Function{c.P.Func("nitro", "Nitro", "StoreToDisk")})
 			})
-			c.Do("C12.c", "L1 manifests only after success", 5, func() { clManifestsAfterSuccess(c) })
+			c.Do("C12.c", "L1 manifests only after success", 5, func() { clManifestsAfterSuccess(c); clMandatoryManifest(c) })
 			c.Do("C12.d", "L6c write errors surface through the handshake", 3, func() { clHandshakeCarriesError(c) })
 		},
 	})
